@@ -182,6 +182,44 @@ def rule_b(R, ctx):
         R.ob("C02.b", sw, site, ok, why, cs.loc())
 
 
+SV_MUTATORS = ("re:^yrs::state_vector::StateVector::(set_min|set_max|inc_by|insert|remove|merge|set)$",
+               "re:^std::collections::HashMap::(insert|remove|entry|get_mut|clear)$")
+
+
+def rule_b2(R, ctx):
+    Y = ctx.yrs
+    R.rule("C02.b2", "R-OWN the missing-dependency vector is only ever lowered: every mutation of a PendingUpdate.missing / "
+                     "BlockPicker.missing state vector anywhere in the crate is StateVector::set_min (keeping the lowest still-missing clock "
+                     "per client when stashes are merged); raising it (set_max / insert / inc_by) would skip the retry of the older stash")
+    n = 0
+    for fn in Y.fns.values():
+        if not fn.mir:
+            continue
+        css = fn.calls_to(*SV_MUTATORS)
+        if not css:
+            continue
+        v = FnView(fn)
+        for cs, site in ordinal_sites(css):
+            recv = simp_deep(v.arg(cs, 0))
+            fp = field_path(recv)
+            if fp[-1:] != ["missing"] and not (len(fp) >= 2 and fp[-2] == "missing"):
+                continue
+            n += 1
+            ok = cs.is_("yrs::state_vector::StateVector::set_min")
+            R.ob("C02.b2", fn, site, ok, "%s on %s" % (F.strip_generics(cs.name).rsplit("::", 1)[-1], show(recv, 4)), cs.loc())
+    R.floor("C02.b2", "mutations of a missing-dependency vector", n, 2)
+    # and the merge of two stashes really carries every entry of the new one over
+    au = Y.fn(TXN + "::apply_update")
+    av = FnView(au)
+    sm = [c for c in au.calls_to("yrs::state_vector::StateVector::set_min") if field_path(simp_deep(av.arg(c, 0)))[-1:] == ["missing"]]
+    ok = False
+    for c in sm:
+        a1, a2 = av.arg(c, 1), av.arg(c, 2)
+        if term_has_field(a1, "PendingUpdate.missing") and term_has_field(a2, "PendingUpdate.missing") and term_has_call(a1, "yrs::update::Update::integrate"):
+            ok = True
+    R.ob("C02.b2", au, "merge-missing", ok, "old.missing.set_min(client, clock) for every (client, clock) of the new remainder's missing vector: %s" % ok)
+
+
 def partial_field_defs(fn, local, field_suffix):
     out = []
     for d in fn.defs().get((local, "partial"), []):
@@ -339,6 +377,7 @@ def rule_f(R, ctx):
 def check(ctx, R):
     R.run("C02.a", rule_a, ctx)
     R.run("C02.b", rule_b, ctx)
+    R.run("C02.b2", rule_b2, ctx)
     R.run("C02.c", rule_c, ctx)
     R.run("C02.d", rule_d, ctx)
     R.run("C02.f", rule_f, ctx)
